@@ -58,7 +58,8 @@ K = {c: i for i, c in enumerate(ALL_KINDS)}
 TYPE_CLASSES = {"expr": EXPR_KINDS, "keyword": [real_ast.keyword], "comprehension": [real_ast.comprehension], "arguments": [real_ast.arguments], "arg": [real_ast.arg]}
 FIELDS = sorted({f for c in ALL_KINDS for (f, t, q) in _sig(c)})
 FID = {f: i for i, f in enumerate(FIELDS)}
-NAME_CLASSES = ["whitelisted", "plain", "colon", "dunder"]  # identifier classes
+NAME_CLASSES = ["whitelisted", "plain", "colon", "dunder", "time", "step"]  # identifier classes
+NAME_REPRESENTATIVE = {"whitelisted": "max", "plain": "y", "colon": "a___b", "dunder": "a__b", "time": "t", "step": "dt"}
 NID = {n: i for i, n in enumerate(NAME_CLASSES)}
 CONST_CLASSES = ["int", "float", "bool", "str", "bytes", "none", "ellipsis", "complex", "str_dunder"]
 CID = {n: i for i, n in enumerate(CONST_CLASSES)}
@@ -82,7 +83,7 @@ def _nm(s="x"):
 
 def build(kind, name_class="plain", const_class="int", child=None, field=None, wl_name="max"):
     """Concrete node of `kind` whose field `field` holds `child` (if given) and all other fields minimal valid fill-ins"""
-    ident = {"whitelisted": wl_name, "plain": "y", "colon": "a___b", "dunder": "a__b"}[name_class]
+    ident = {"whitelisted": wl_name, "plain": "y", "colon": "a___b", "dunder": "a__b", "time": "t", "step": "dt"}[name_class]
     A = real_ast
 
     def ch(f, default):
@@ -214,7 +215,14 @@ class SymName:
         raise HarnessError("SymName.replace(%r, %r) not modelled" % (a, b))
 
     def __eq__(self, o):
-        raise HarnessError("identifier comparison not modelled")
+        # every identifier class has one concrete representative (the one used when a model is concretised)
+        if isinstance(o, str):
+            ks = [NID[c] for c, rep in NAME_REPRESENTATIVE.items() if rep == o]
+            return bool(SB(z3.Or(*[self.c == k for k in ks]))) if ks else False
+        raise HarnessError("identifier comparison with %r not modelled" % (o,))
+
+    def __ne__(self, o):
+        return not self.__eq__(o)
 
     __hash__ = None
 
@@ -589,6 +597,8 @@ def shapes(tier):
     for u in un:
         for inner in bi:
             out.append(u.format("(" + inner.format("a", "b") + ")"))
+    # a quantity used again after it was an argument of min/max (arguments must not be modified), and the names t / dt
+    out += ["max(a,b)-a", "a-min(a,b)", "(a+max(a,b,c))/2", "min(a,b)*a+max(a,b)", "a*t", "1-(1-a)*dt", "max(t,dt)+a", "t/dt"]
     out += ["min(1,a/b)", "max(0,1-a/b)", "exp(-a/b)", "a/b/c", "a/(b/c)", "max(a,b,c)", "min(a,b,c,d)", "pop:a+b", "a/b+c/d", "-(a/b)", "(a+b)/(a+b)", "2*a/3", "a/2.5", "0/a", "a/(b-b)"]
     if tier != "quick":
         for b1, b2, b3 in itertools.product(bi[:8], repeat=3):
